@@ -17,7 +17,7 @@
     ctx     std | wrap (optional, default std): the context is of a standard library type / of a user-defined type
             with its own Done channel.  The logic machine does not depend on it (the runtime observations do).
   impl:  class=<c> pkt=<fields|-> first=<hex|-|na> verbatim=<b|na> resends=<ok|…|na> prompt=<b|na>
-         silent=<b|na> goroutines=<b> fds=<b> t0=0 arr=<ms,ms,…|-|na> end=<ms|na> d=<retry ms>
+         silent=<b|na> goroutines=<b> fds=<b> t0=<ms> arr=<ms,ms,…|-|na> end=<ms|na> d=<retry ms>
          (observations of the real call as classes and booleans; the last four tokens are the raw numbers
           behind `resends`: arrival instants of the request datagrams at the peer and the instant Exchange
           had returned by, in whole milliseconds since the instant just before Exchange was called - a clock
@@ -222,10 +222,15 @@ def c08 (op : String) (args : List String) (impl : String) : Verdict :=
           -- the timed layer: the raw numbers are echoed (not predicted), the interval and the clock are the model's
           let arrTok := tok impl "arr"
           let endTok := tok impl "end"
+          -- the clock origin reported by the harness: the instant the Dialer's Control hook returned (the socket exists,
+          -- nothing is written yet), whole ms since the call began - not after the model's t0, so
+          -- `observation_within_model_bounds` applies to the instants counted from there
+          let t0Tok := tok impl "t0"
+          let t0 := t0Tok.toNat?.getD 0
           let model := s!"class={cls} pkt={pkt} first={first} verbatim={verbatim} resends={resends} " ++
             s!"prompt={if isCtx then "true" else "na"} silent={if blind then "na" else boolStr true} " ++
             s!"goroutines={boolStr s.connClosed} fds={boolStr s.connClosed} " ++
-            s!"t0=0 arr={arrTok} end={endTok} d={retry}"
+            s!"t0={t0Tok} arr={arrTok} end={endTok} d={retry}"
           let d := Timed.period P
           let arrP := parseArr arrTok
           let endP := parseEnd endTok
@@ -234,10 +239,10 @@ def c08 (op : String) (args : List String) (impl : String) : Verdict :=
             | _, _ => false
           -- the model's bounds on the numbers (true when the peer could not report)
           let notEarly := match arrP with
-            | some (some l) => Timed.obsNotEarly d c08TolMs l
+            | some (some l) => Timed.obsNotEarly d c08TolMs (l.map (· - t0))
             | _ => true
           let countOk := match arrP, endP with
-            | some (some l), some (some fin) => Timed.obsCountOk d c08TolMs fin l
+            | some (some l), some (some fin) => Timed.obsCountOk d c08TolMs (fin - t0) l
             | _, _ => true
           -- the property's clauses on the implementation's observations
           let icls := tok impl "class"
